@@ -97,7 +97,7 @@ def parser_rules(ret_stmt, nret, whole):
     return pre + [
         Rule(r'data \+= load_file\(filename\);', 'C09_load_file(data, &filename); if (verif_exc) %s' % ret_stmt, regex=True, count=1),
         Rule(r'\bdata \+= ([^;]+);', r'out_push_back(data, \1);', regex=True, count='+'),
-        Rule(r'\bdata\.append\(\(const char\*\)&value, ([^;]+)\);', r'C09_append_bytes(data, (const char*)&value, \1);', regex=True, count='+'),
+        Rule(r'\bdata\.append\(\(*const char\*\)\(?&value\)*, ([^;]+)\);', r'C09_append_bytes(data, (const char*)&value, \1);', regex=True, count='+'),
         Rule(r'\bdata\.append\(1, ([^;]+)\);', r'out_push_back(data, \1);', regex=True, count='+'),
         Rule(r'\bdata\.size\(\)', 'out_size(data)', regex=True, count=2),
         Rule(r'\bstrtoull\(', 'C09_strtoull(', regex=True, count=None),
